@@ -311,7 +311,7 @@ func (rn *runner) direct(sc *scenario, class, what, output string, extra map[str
 		files[k] = v
 	}
 	rn.meta.AddDirect(hx.Direct{Class: class, What: sc.Name + ": " + what, Files: files,
-		Cmd: "cd " + sc.PkgDir + " && goderive " + strings.Join(append(append([]string{}, sc.Flags...), sc.args()...), " "),
+		Cmd:    "cd " + sc.PkgDir + " && goderive " + strings.Join(append(append([]string{}, sc.Flags...), sc.args()...), " "),
 		Output: hx.Truncate(output, 3000)})
 }
 
@@ -380,6 +380,11 @@ func (rn *runner) run(root string, sc *scenario, keep bool) (*outcomeT, error) {
 	o := &outcomeT{class: classifyExit(res), exit: res.Exit, out: res.Out, names: map[string][]string{}}
 	_, o.derived = after[filepath.Join(sc.PkgDir, "derived.gen.go")]
 	rn.meta.Count("outcome/" + o.class)
+	if o.class == "loaderr" && sc.plan == nil && len(sc.broken) == 0 && sc.Class != "corpus" {
+		// a hand-written scenario whose sources all parse and type-check: goderive may refuse it with an
+		// Add Error (conflict/duplicate without the flag), never with a load/format/other error
+		rn.direct(sc, "c10-unexpected-failure", fmt.Sprintf("goderive fails (exit %d) with an error that is neither an Add Error, a Generator Error nor 'cannot generate' on a package whose sources parse and type-check (flags %v)", res.Exit, sc.Flags), res.Out, nil)
+	}
 	if o.class == "crash" && strings.Contains(res.Out, "unreachable: function names cannot be changed") {
 		rn.direct(sc, "c10-unreachable-panic", "goderive hit panic(\"unreachable: function names cannot be changed...\")", res.Out, nil)
 	}
